@@ -509,7 +509,20 @@ def call_builtin_path(interp, segs, args, hint, generics):
             r = args[0]
             if isinstance(r, Ref):
                 old = r.get()
-                r.set(_default_like(old))
+                od = deref(old)
+                if isinstance(od, Struct) and od.ty in interp.prog.structs:
+                    r.set(interp.default_of_named(od.ty))      # a user struct: its (derived or written) Default
+                elif isinstance(od, (Vec, HMap, HSet)):
+                    r.set(type(od)([]) if not isinstance(od, Vec) else Vec([]))
+                else:
+                    r.set(_default_like(old))
+                return old
+            if isinstance(r, Struct) and r.ty in interp.prog.structs:
+                # `&mut place` of a user struct evaluates to the place's own object: move its fields out, leave Default behind
+                old = Struct(r.ty, dict(r.f))
+                fresh = interp.default_of_named(r.ty)
+                r.f.clear()
+                r.f.update(fresh.f)
                 return old
             old = deep_clone(r)
             _clear_in_place(r)
